@@ -268,6 +268,7 @@ static std::string opRun(const vh::Case& c) {
 	opt.mismatchedTypesPolicy = c.get("mis", "skip") == "skip" ? MismatchedTypesPolicy::Skip : MismatchedTypesPolicy::ThrowError;
 	opt.overflowNumberPolicy = c.get("ovf", "skip") == "skip" ? OverflowNumberPolicy::Skip : OverflowNumberPolicy::ThrowError;
 	opt.maxValidationErrors = uint32_t(c.geti("maxerr", 0));
+	{ std::string sep = c.get("sep", "comma"); opt.valuesSeparator = sep == "semicolon" ? ';' : sep == "tab" ? '\t' : sep == "space" ? ' ' : sep == "pipe" ? '|' : ','; }
 	gFresh = c.geti("fresh", 0) != 0;
 	std::string arch = c.get("arch"), res, tail;
 	Scripted s{ &prog, 0, prog.ops.size(), &log };
